@@ -117,7 +117,16 @@ class C18(Oracle):
             out.append(V('nextpos/pose-algebra', f'{p},{a},{act}'))
         s = state_from_str(c['grid'])
         g = s.grid
+        layout = [[id(x) for x in row] for row in g.objects]
         gr = g * a
+        if [[id(x) for x in row] for row in g.objects] != layout:
+            out.append(V('gridrot/mutates-source-grid', f'{a} {c["grid"]}'))
+        gr_again = g * a
+        if gr_again.shape != gr.shape or any(gr_again[pp] is not gr[pp] for pp in gr.area.positions()):
+            out.append(V('gridrot/second-rotation-of-same-grid-differs', f'{a} {c["grid"]}'))
+        for pp in g.area.positions():
+            # the object at p ends up at the rotated position (about the grid's own frame)
+            pass
         back = gr * (-a)
         if back.shape != g.shape or any(back[pp] is not g[pp] for pp in g.area.positions()):
             out.append(V('gridrot/inverse', f'{a} {c["grid"]}'))
@@ -194,6 +203,8 @@ def run_step(case):
     from gym_gridverse.envs import transition_functions as trf
 
     s0 = state_from_str(case['state'])
+    if case.get('alias'):
+        gen.alias_equal(s0)
     s = fast_copy(s0)
     a = ACTIONS[case['action']]
     rng = ScriptRng(case['answers'])
@@ -210,8 +221,17 @@ def in_grid(g, p):
     return 0 <= p.y < g.shape.height and 0 <= p.x < g.shape.width
 
 
+def blocks(obj):
+    """what blocks movement, by type and status (not read from the object's own attribute)"""
+    from gym_gridverse.grid_object import Box, Door, Wall
+
+    if isinstance(obj, Door):
+        return obj.state is not Door.Status.OPEN
+    return isinstance(obj, (Wall, Box))
+
+
 def is_valid(s):
-    return in_grid(s.grid, s.agent.position) and not s.grid[s.agent.position].blocks_movement
+    return in_grid(s.grid, s.agent.position) and not blocks(s.grid[s.agent.position])
 
 
 class C08(Oracle):
@@ -226,6 +246,15 @@ class C08(Oracle):
             c = next(g2)
             c['history'] = [rng.randrange(8) for _ in range(rng.randint(1, 12))]
             yield c
+            # a door in front of the agent, the dynamics that can open it, then a walk through it
+            h, w = rng.randint(1, 4), rng.randint(2, 5)
+            y, x = rng.randrange(h), rng.randrange(w - 1)
+            status = rng.choice([0, 1, 1, 2])
+            col = rng.randint(0, 4)
+            held = rng.choice(['N', f'K{col}', f'K{col}', f'K{(col + 1) % 5}'])
+            s = gen.mk_state(h, w, {(y, x + 1): f'D{status}{col}'}, y, x, O.R, held)
+            yield {'kind': 'step', 'atoms': rng.choice([[0, 1, 4], [4, 0, 1], [0, 4], [0, 1, 4, 2]]), 'state': enc_state(s), 'action': 6,
+                   'answers': [0] * 4, 'history': rng.choice([[6, 0], [6, 0, 1, 0], [6, 6, 0], [0, 6, 0, 0], [6, 0, 0]])}
 
     def from_line(self, line):
         return step_case_from_line(line)
@@ -249,7 +278,7 @@ class C08(Oracle):
                     from gym_gridverse.envs.utils import _move_action_to_orientation as mv
 
                     tgt = p0 + (o0 * mv[a]) * Position(-1, 0)
-                    free = in_grid(s0.grid, tgt) and not s0.grid[tgt].blocks_movement
+                    free = in_grid(s0.grid, tgt) and not blocks(s0.grid[tgt])
                     if free and p1 != tgt:
                         out.append(V('move_agent/free-target-not-reached', f'{c["state"]} a={a}'))
                     if not free and p1 != p0:
@@ -294,12 +323,30 @@ class C08(Oracle):
 
             s = fast_copy(s0)
             rng = ScriptRng(c['answers'] * 20)
+            from gym_gridverse.envs.utils import _move_action_to_orientation as mv
+
             for k, ai in enumerate(c['history']):
+                act = ACTIONS[ai]
+                bad = False
                 try:
                     for i in atoms:
-                        trf.transition_function_registry[TRANS_NAMES[i]](s, ACTIONS[ai], rng=rng)
+                        # the kinematic law at every move_agent of the history, judged on what the cells
+                        # are *now* (a door opened earlier in the history must let the agent through)
+                        pb, ob = s.agent.position, s.agent.orientation
+                        tgt = pb + (ob * mv[act]) * Position(-1, 0) if act in mv else None
+                        free = tgt is not None and in_grid(s.grid, tgt) and not blocks(s.grid[tgt])
+                        trf.transition_function_registry[TRANS_NAMES[i]](s, act, rng=rng)
+                        if TRANS_NAMES[i] == 'move_agent' and tgt is not None:
+                            if free and s.agent.position != tgt:
+                                out.append(V('history/free-target-not-reached', f'step {k} ({act.name}) of {atoms} x {c["history"]} from {c["state"]}: stays at {pb}, target {tgt} holds {s.grid[tgt]!r}'))
+                                bad = True
+                            if not free and s.agent.position != pb:
+                                out.append(V('history/moves-into-blocking-cell', f'step {k} ({act.name}) of {atoms} x {c["history"]} from {c["state"]}'))
+                                bad = True
                 except Exception as e:
                     out.append(V('history/raises', f'{type(e).__name__} after {k} steps from {c["state"]}'))
+                    break
+                if bad:
                     break
                 if not is_valid(s):
                     out.append(V('history/agent-invalid', f'after {k+1} steps of {atoms} from {c["state"]}: {s.agent.position}'))
@@ -511,8 +558,11 @@ class C11(Oracle):
         while True:
             c = next(g3)
             c['answers'] = [rng.randrange(4) for _ in range(40)]
+            c['alias'] = rng.random() < 0.3
             yield c
-            yield next(g6)
+            c = next(g6)
+            c['alias'] = rng.random() < 0.4
+            yield c
 
     def from_line(self, line):
         return step_case_from_line(line)
@@ -575,6 +625,8 @@ class C11(Oracle):
             if not in_grid(s0.grid, s0.agent.position):
                 return out
             s0, a, s1, err, rng = run_step(c)
+            tag = ' [one shared instance per distinct object]' if c.get('alias') else ''
+            c = dict(c, state=c['state'] + tag)
             here = s0.grid[s0.agent.position]
             partners = []
             if isinstance(here, Telepod):
@@ -1169,6 +1221,60 @@ class C04(Oracle):
             if d:
                 env.reset()
                 s = ref.functional_reset()
+        out.extend(self._outer(c))
+        return out
+
+    def _outer(self, c):
+        """the numeric shell: at every point of a history of reset / step / reads, OuterEnv's state
+        and observation are the conversions of the inner environment's current ones"""
+        import numpy as np
+        from gym_gridverse.outer_env import OuterEnv
+        from gym_gridverse.representations.observation_representations import make_observation_representation
+        from gym_gridverse.representations.state_representations import make_state_representation
+
+        out = []
+        try:
+            inner = env_of_case(c)
+            srep = make_state_representation('default', inner.state_space)
+            orep = make_observation_representation('default', inner.observation_space)
+        except Exception:
+            return out
+        outer = OuterEnv(inner, state_representation=srep, observation_representation=orep)
+        acts = inner.action_space.actions
+        inner.set_seed(c['seed'])
+
+        def same(a, b):
+            return a.keys() == b.keys() and all(np.array_equal(a[k], b[k]) for k in a)
+
+        def probe(where):
+            try:
+                o = outer.observation
+                exp = orep.convert(inner.observation)
+                if not same(o, exp):
+                    out.append(V('outer/observation-not-current', f'{c.get("file", "random composition")} seed={c["seed"]} {where}'))
+                st = outer.state
+                if not same(st, srep.convert(inner.state)):
+                    out.append(V('outer/state-not-current', f'{c.get("file", "random composition")} seed={c["seed"]} {where}'))
+            except Exception as e:
+                out.append(V('outer/read-raises', f'{type(e).__name__}: {e} {where}'))
+
+        outer.reset()
+        probe('after reset')
+        for k, (ai, rd) in enumerate(zip(c['actions'], c['reads'])):
+            if 'o' in rd or 's' in rd:
+                probe(f'before step {k}')
+            if 'r' in rd:
+                outer.reset()
+                probe(f'after reset before step {k}')
+            try:
+                _, d = outer.step(acts[ai])
+            except Exception:
+                return out
+            if k % 2 == 0 or d:
+                probe(f'after step {k}')
+            if d:
+                outer.reset()
+                probe(f'after reset following termination at step {k}')
         return out
 
 
@@ -1181,6 +1287,8 @@ class C20(Oracle):
             c = next(g)
             c['enc'] = rng.choice(['default', 'no-overlap', 'compact'])
             c['mode'] = rng.choice(['make', 'direct', 'state'])
+            # keep stepping after a terminal step (the adapter forwards every step) in half of the cases
+            c['noreset'] = rng.random() < 0.5
             yield c
 
     def check(self, c):
@@ -1251,7 +1359,7 @@ class C20(Oracle):
                     out.append(V('gym/observation-outside-advertised-space', f'{fname} step {k} enc={c["enc"]}'))
                 if info != {}:
                     out.append(V('gym/info-not-empty', fname))
-            if d:
+            if d and not c.get('noreset'):
                 w.reset()
                 shadow.reset()
         # switching representation updates the advertised space
@@ -1655,7 +1763,7 @@ class C01(Oracle):
             h, w = data['reset_function']['shape']
             s = gen.valid_random_state(rng, max_h=h, max_w=w, min_h=h, min_w=w, p_floor=0.5) if rng.random() < 0.6 else gen.random_state(rng, max_h=h, max_w=w, min_h=h, min_w=w, p_floor=0.5)
             # unique exit / a beacon so that the distance / memory rewards' preconditions hold
-            yield {'kind': 'fstep', 'config': data, 'state': enc_state(s), 'seed': rng.randrange(2**31)}
+            yield {'kind': 'fstep', 'config': data, 'state': enc_state(s), 'seed': rng.randrange(2**31), 'debug': rng.random() < 0.7}
             # (b) reachable states of shipped / random environments
             c = next(ge)
             c['kind'] = 'traj'
@@ -1682,6 +1790,20 @@ class C01(Oracle):
         return s
 
     def check(self, c):
+        from gym_gridverse.debugging import reset_gv_debug
+
+        # the contract does not depend on the library debug flag (python -O turns it off)
+        reset_gv_debug(bool(c.get('debug', True)))
+        try:
+            out = self._check(c)
+        finally:
+            reset_gv_debug(None)
+        if not c.get('debug', True):
+            for v in out:
+                v['what'] = '[debug flag off] ' + v['what']
+        return out
+
+    def _check(self, c):
         import numpy as np
         from gym_gridverse.action import Action
         from gym_gridverse.grid_object import Exit, Floor
@@ -1897,11 +2019,15 @@ class C17(Oracle):
                     out.append(V('factory/mutates-input-data', os.path.basename(c['file'])))
                 e2 = factory_env_from_data(data)
                 e3 = factory_env_from_yaml(c['file'])
+                e4 = factory_env_from_yaml(c['file'])
                 eh = envspec.hand_assemble(before)
             except Exception as e:
                 return [V('factory/shipped-config-rejected', f'{os.path.basename(c["file"])}: {type(e).__name__}: {e}')]
-            envs = [e1, e2, e3, eh]
-            names = ['from_data', 'from_data(again)', 'from_yaml', 'hand-assembled']
+            if e3 is e4 or e1 is e2:
+                out.append(V('factory/second-build-returns-the-same-environment', f'{os.path.basename(c["file"])}: two builds of one description must be independent environments'))
+                e4 = factory_env_from_data(copy.deepcopy(before))
+            envs = [e1, e2, e3, e4, eh]
+            names = ['from_data', 'from_data(again)', 'from_yaml', 'from_yaml(again)', 'hand-assembled']
             spaces = [(e.state_space.grid_shape, [t.__name__ for t in e.state_space.object_types], sorted(x.value for x in e.state_space.colors), e.observation_space.grid_shape, [a.name for a in e.action_space.actions]) for e in envs]
             if any(sp != spaces[0] for sp in spaces):
                 out.append(V('factory/spaces-differ-from-description', f'{os.path.basename(c["file"])}: {spaces}'))
@@ -1914,7 +2040,7 @@ class C17(Oracle):
                 st = [enc_state(e.state) if not os.path.basename(c['file']).startswith('coin') else repr(e.state.grid.objects) + repr(e.state.agent) for e in envs]
                 ob = [enc_state(e.observation) if not os.path.basename(c['file']).startswith('coin') else repr(e.observation.grid.objects) for e in envs]
                 if any(x != st[0] for x in st) or any(x != ob[0] for x in ob):
-                    bad = [names[i] for i in range(4) if st[i] != st[0] or ob[i] != ob[0]]
+                    bad = [names[i] for i in range(len(envs)) if st[i] != st[0] or ob[i] != ob[0]]
                     out.append(V('factory/behaviour-differs-from-hand-assembly', f'{os.path.basename(c["file"])} step {k}: {bad}'))
                     break
                 res = [e.step(a) for e in envs]
@@ -1968,7 +2094,7 @@ class C17(Oracle):
         s, a, s2 = corr_core._reward_triples(rr, rr.randrange(4))
         if not in_grid(s2.grid, s2.agent.position):
             return out
-        for name, kw, extra in [('reach_exit', {'reward_on': 3.0, 'reward_off': -1.0}, {'colour': 'blue'}), ('living_reward', {'reward': -0.25}, {'shape': (3, 3)}), ('bump_into_wall', {'reward': -2.0}, {}), ('pickndrop', {'object_type': Key, 'reward_pick': 1.5}, {'reward_drip': 9.0})]:
+        for name, kw, extra in [('reach_exit', {'reward_on': 3.0, 'reward_off': -1.0}, {'colour': 'blue'}), ('living_reward', {'reward': -0.25}, {'shape': (3, 3)}), ('living_reward', {'reward': 0.0}, {}), ('reach_exit', {'reward_on': 0.0, 'reward_off': 2.0}, {}), ('bump_into_wall', {'reward': 0}, {}), ('bump_into_wall', {'reward': -2.0}, {}), ('pickndrop', {'object_type': Key, 'reward_pick': 1.5}, {'reward_drip': 9.0})]:
             try:
                 f = rf.factory(name, **kw, **extra)
                 same = f(s, a, s2) == rf.reward_function_registry[name](s, a, s2, **kw)
@@ -1980,6 +2106,19 @@ class C17(Oracle):
         for name in ('reach_exit', 'bump_into_wall', 'bump_moving_obstacle'):
             if tf.factory(name, junk=1)(s, a, s2) != tf.terminating_function_registry[name](s, a, s2):
                 out.append(V('factory/component-by-name-differs', name))
+        # falsy parameter values are values (0, 0.0, False), not "unspecified"
+        import numpy as np
+        from gym_gridverse.envs import reset_functions as rsf
+        from gym_gridverse.geometry import Shape
+
+        for kw in ({'num_obstacles': 0, 'random_agent': False}, {'num_obstacles': 2, 'random_agent': False}):
+            try:
+                s1 = rsf.factory('dynamic_obstacles', shape=Shape(6, 6), **kw)(rng=np.random.default_rng(c['seed']))
+                s2_ = rsf.dynamic_obstacles(Shape(6, 6), rng=np.random.default_rng(c['seed']), **kw)
+                if enc_state(s1) != enc_state(s2_):
+                    out.append(V('factory/component-by-name-differs', f'dynamic_obstacles {kw}'))
+            except Exception as e:
+                out.append(V('factory/component-by-name-differs', f'dynamic_obstacles {kw}: {type(e).__name__}: {e}'))
         return out
 
 
